@@ -33,7 +33,7 @@ const calculatedIndexNameSuffix = "_time"
 
 func (s *Service) createHandler(ctx context.Context, msg CreateMessage) (CreateMessage, error) {
 	txn := s.cfg.ClusterDB.OpenTx()
-	err := s.create(ctx, txn, &msg.Channels, msg.Opts)
+	err := s.createFrom(ctx, txn, &msg.Channels, msg.Opts, true)
 	if err != nil {
 		return CreateMessage{}, err
 	}
@@ -59,6 +59,19 @@ func (s *Service) renameHandler(ctx context.Context, msg RenameRequest) (types.N
 }
 
 func (s *Service) create(ctx context.Context, tx gorp.Tx, _channels *[]Channel, opts CreateOptions) error {
+	return s.createFrom(ctx, tx, _channels, opts, false)
+}
+
+// createFrom creates the channels. forwarded is true when the request was routed here by
+// another node's create, which already appended the index channels of its calculated
+// channels.
+func (s *Service) createFrom(
+	ctx context.Context,
+	tx gorp.Tx,
+	_channels *[]Channel,
+	opts CreateOptions,
+	forwarded bool,
+) error {
 	channels := *_channels
 	if *s.cfg.ValidateNames {
 		keys := KeysFromChannels(channels)
@@ -89,7 +102,7 @@ func (s *Service) create(ctx context.Context, tx gorp.Tx, _channels *[]Channel, 
 	// Auto-create index channels for calculated channels (only for new calculated channels)
 	indexChannels := make([]Channel, 0, len(channels))
 	for _, ch := range channels {
-		if ch.IsCalculated() && ch.LocalKey == 0 {
+		if ch.IsCalculated() && ch.LocalKey == 0 && !forwarded {
 			indexCh := Channel{
 				Name:        ch.Name + calculatedIndexNameSuffix,
 				DataType:    telem.TimeStampT,
